@@ -43,7 +43,7 @@ def c06(ctx, replay):
     rej, _ = pipeline(ctx, replay)
     if ctx.tier == "thorough" and not replay:
         from props.stream import apalache
-        apalache(ctx, "RingIdxAbs")       # index arithmetic for ANY capacity, unbounded histories
+        apalache(ctx, "RingIdxAbs", inits=("Init", "InitRaw"))       # index arithmetic for ANY capacity, unbounded histories
         ctx.assumptions.append("Apalache inductive invariant of RingIdxAbs: slot arithmetic of Bounded/Fixed for any capacity and history length "
                                "(one arbitrary element followed symbolically; set_first not part of the abstraction)")
     ctx.add_rejections(rej)
